@@ -105,13 +105,15 @@ def cases(tier, seed):
         npool = int(rng.integers(1, 7))
         c = {"id": "struct-%d" % i, "kind": "struct", "shape": shape, "pool": _gen_pool(rng, npool), "struct": _gen_struct(rng, shape, npool),
              "model": ["alpha", "exact"][i % 2], "seed": [seed, "struct", i]}
-        # priors outside the scatterer come from their own objects (the property speaks of sharing between places of
-        # the scatterer); each of them is used once
+        # priors outside the scatterer mostly come from their own objects, each used once; every fifth one is a prior object that
+        # is ALSO used inside the scatterer (one distinct prior is one parameter wherever it is used: F110)
         extra = []
 
         def own(p_prior):
             if rng.random() > p_prior:
                 return {"k": "fix", "v": float(rng.uniform(0.5, 3.0))}
+            if rng.random() < 0.2:
+                return {"k": "p", "i": int(rng.integers(0, npool))}
             extra.append(_gen_pool(rng, 1)[0])
             j = npool + len(extra) - 1
             return {"k": "p", "i": j} if rng.random() < 0.7 else {"k": "lin", "i": j, "a": 2.0, "b": 0.5}
@@ -260,7 +262,9 @@ def _build_scatterer(st, pool):
     if t == "layered_chan":
         return Sphere(n=B(st["n"]), r=[B(x) for x in st["r"]], center=[B(c) for c in st["center"]])
     if t == "spheres":
-        return Spheres([_build_scatterer(m, pool) for m in st["members"]], warn=False)
+        mem = [_build_scatterer(m, pool) for m in st["members"]]
+        # the members may be handed over in any sequence type (every third collection as a tuple: F120)
+        return Spheres(tuple(mem) if len(mem) % 3 == 0 else mem, warn=False)
     if t == "spheroid":
         return Spheroid(n=B(st["n"]), r=[B(x) for x in st["r"]], rotation=[B(x) for x in st["rotation"]], center=[B(c) for c in st["center"]])
     if t == "cylinder":
@@ -559,6 +563,26 @@ def _run_tie(case):
         return {"resid": {}, "flags": flags, "witness": [str(names0)], "nparams": len(names0)}
     sub = case["subset"]
     tie_names = [cand_names[j] for j in sub]
+    # tying nothing, tying a parameter to itself, and a name that another parameter already has leave the model as it was (the last one
+    # is refused): the names stay unique and every value keeps its place (F118, F119)
+    from vf.monitors import digest as _dg
+    d_model = _dg(model)
+    try:
+        model.add_tie([])
+        model.add_tie([cand_names[0], cand_names[0]])
+        flags["empty_and_self_ties_change_nothing"] = bool(_dg(model) == d_model)
+    except Exception as e:
+        flags["empty_and_self_ties_change_nothing"] = False
+        witness.append("add_tie([]) / add_tie([a, a]) raised %r" % (e,))
+    other = [nm for nm in names0 if nm not in tie_names]
+    if other:
+        try:
+            model.add_tie(list(tie_names), new_name=other[int(rng.integers(0, len(other)))])
+            flags["tie_named_like_another_parameter"] = bool(len(set(model._parameter_names)) == len(model._parameter_names) == len(model.parameters))
+            witness.append("add_tie accepted the name of another parameter: %s" % list(model._parameter_names))
+            return {"resid": {}, "flags": flags, "witness": witness, "nparams": len(names0)}
+        except ValueError:
+            flags["refused_name_leaves_model_unchanged"] = bool(_dg(model) == d_model)
     # hostile orders: the subset is passed in a shuffled order
     order = list(rng.permutation(len(tie_names)))
     model.add_tie([tie_names[o] for o in order], new_name=case["new_name"])
